@@ -485,6 +485,18 @@ def r09d(repo: Repo, chk: Check):
                     ruled_out = True
             if pol and isinstance(t, ast.Call) and norm(t.func) == "isinstance" and len(t.args) == 2 and norm(t.args[0]) == norm(v) and norm(t.args[1]) == "str":
                 ruled_out = True
+        # ... and neither a truth value (a constant name that holds True / False, handed to an inlined function, becomes the parameter's "register")
+        bool_out = False
+        for t, pol in [a_ for t0, p0 in conds for a_ in decompose(t0, p0)]:
+            if isinstance(t, ast.Call) and norm(t.func) == "isinstance" and len(t.args) == 2 and norm(t.args[0]) == norm(v):
+                kinds = norm(t.args[1])
+                if not pol and ("bool" in kinds or "int" in kinds or "Number" in kinds or "Integral" in kinds):
+                    bool_out = True
+                if pol and kinds == "str":
+                    bool_out = True
+        chk.judge("R09.d", "types:to_string:a truth value carried by a register object is spelled as a number", bool_out,
+                  f"IC10Operand.to_string returns {norm(v)} unchanged also when it is True / False (a constant name handed to an inlined function stands for the parameter): "
+                  f"the instruction text then reads 's db Setting True'", None, f"{m.path}:{fn.lineno} in IC10Operand.to_string")
         chk.judge("R09.d", "types:to_string:a float carried by a register object is formatted, not returned as it is", ruled_out,
                   f"IC10Operand.to_string returns {norm(v)} unchanged also when it is a float (a variable or an inlined parameter that stands for a float literal): "
                   f"the instruction text then contains Python's repr, e.g. 'mul r0 1e-05 2'", None, f"{m.path}:{fn.lineno} in IC10Operand.to_string")
